@@ -97,6 +97,13 @@ theorem lookup_perm {l₁ l₂ : List (Nat × Int)} (h : l₁.Perm l₂) (nd : (
 transient fields (`Gen/VmFields.lean` is regenerated from the Rust structs on every run). -/
 theorem fields_saved : TsrunVerif.Gen.vmFieldsCovered = true ∧ TsrunVerif.Gen.frameFieldsCovered = true := by decide
 
+/-- every field of a saved frame comes from the field of the same name of THAT frame, every field of the saved VM
+from the running VM, and back (regenerated from `save_state` / `from_saved_state` on every run): the Rust code
+implements `saveCaller` / `restoreCaller` / `save` / `restore` of the model, field by field. -/
+theorem fields_faithful : TsrunVerif.Gen.saveFrameFaithful = true ∧ TsrunVerif.Gen.saveVmFaithful = true ∧
+    TsrunVerif.Gen.restoreFrameFaithful = true ∧ TsrunVerif.Gen.restoreVmFaithful = true ∧
+    TsrunVerif.Gen.literalsComplete = true := by decide
+
 -- non-vacuity: a suspended run through a state with every feature set
 def sampleVm : Vm :=
   { top := { ip := 7, chunk := 1, registers := [1, 2], thisValue := 5, callStack := [9], tryStack := [3], «exception» := some 8,
